@@ -572,6 +572,12 @@ func c04Check(c *mc.Ctx, hname string, cs *c04Case) {
 		c.Transitions(1)
 		got := d.got()
 		in := cs.Desc + " -> " + d.name
+		if pan != "" && refErr != nil {
+			// the reference cannot represent this input either (e.g. a URL that is not valid UTF-8): a panic emits no
+			// bytes "without error", so C04 has nothing to judge - it counts as a refusal
+			refused++
+			continue
+		}
 		if pan != "" {
 			c.Outcome("VIOLATION panic")
 			c.Fail(key+":panic", "WriteTo panicked", in, "bytes or an error", pan)
